@@ -10,6 +10,8 @@ VERUS_UNITS = {
     'number-parser': dict(unit='number-parser', rlimit=30),
     'decimal-parser': dict(unit='decimal-parser', rlimit=30),
     'complex-parser': dict(unit='complex-parser', rlimit=30),
+    'complex-ast': dict(unit='complex-ast', rlimit=30),
+    'decimal-ast': dict(unit='decimal-ast', rlimit=30, multiple_errors=40),
 }
 
 # name -> dict(mods=[(module file the harness becomes a child of, harness file, module name)], flags, timeout, jobs)
@@ -19,6 +21,7 @@ KANI_GROUPS = {
     'f64-ast': dict(mods=[('src/eval_f64/mod.rs', 'kani/f64_ast.rs', 'verif_ast')], flags=['--no-overflow-checks', '-Z', 'stubbing'], timeout=400, jobs=14),
     'i64-ast': dict(mods=[('src/eval_i64/mod.rs', 'kani/i64_ast.rs', 'verif_ast')], flags=['--no-overflow-checks', '-Z', 'stubbing'], timeout=600, jobs=12),
     'tables': dict(mods=[('src/utils/mod.rs', 'kani/tables.rs', 'verif_tables')], flags=[], timeout=300, jobs=2),
+    'complex-ast': dict(mods=[('src/eval_complex/mod.rs', 'kani/complex_ast.rs', 'verif_ast')], flags=['--no-overflow-checks'], timeout=600, jobs=6),
     'number-ast': dict(mods=[('src/eval_number/mod.rs', 'kani/number_ast.rs', 'verif_ast')], flags=['--no-overflow-checks', '-Z', 'stubbing'], timeout=400, jobs=14),
     'number-l4': dict(mods=[('src/eval_number/mod.rs', 'kani/number_l4.rs', 'verif_l4')], flags=['--no-overflow-checks'], timeout=600, jobs=4),
 }
@@ -46,7 +49,7 @@ AST_ASSUME = [
     'A-64bit: usize is 64 bits wide',
     'T1 (error type), T2 (derived Clone of Node is structural), T5, T12, T13, T14 extraction rewrites (DESIGN 4.2)',
 ]
-ALL_V = ['i64-ast'] + PARSERS
+ALL_V = ['i64-ast', 'decimal-ast', 'complex-ast'] + PARSERS
 
 PLAN = {
     'C01': dict(verus=ALL_V, kani=['i64-ast', 'f64-ast', 'number-ast', 'number-l4'], level='proof', assumptions=AST_ASSUME + PARSER_ASSUME + ['A-stack, A-alloc: stack exhaustion and allocation failure are not modelled'],
@@ -67,6 +70,17 @@ PLAN = {
                 assumptions=KANI_ASSUME + ['constants pi and e: the parser inserts std::f64::consts::PI / E (T8: their bit patterns are not re-proved)'],
                 unclaimed=['value of / and % on the full operand domain (bounded stand-ins only; full-domain division is tried in the thorough tier)',
                            'numerical behaviour of the platform pow / sqrt (A-libm)']),
+    'C07': dict(verus=['decimal-ast', 'decimal-parser'], level='proof',
+                assumptions=PARSER_ASSUME + ['A-decimal: contract header for rust_decimal::Decimal (contracts/decimal_header.vinc): the plain operators and ln/exp/log10/sin/powd panic exactly when their checked_* twins return None; '
+                             'division and remainder by zero are undefined; a handful of literal facts (x % 1, x / 2, x / 3, exp(-1), ln 2 are defined); results are uninterpreted',
+                             'T8 (Decimal::ZERO/MAX/MIN/PI/E), T12 (sort idiom), T15 (op= rewritten to op) extraction rewrites'],
+                unclaimed=['that rust_decimal\'s + - * / % are exact / correctly rounded as the property says (A-decimal: not decided here)',
+                           'literal text reaching Decimal::from_str unchanged (tokenizer)']),
+    'C08': dict(verus=['complex-ast', 'complex-parser'], kani=['complex-ast'], level='proof',
+                assumptions=KANI_ASSUME + PARSER_ASSUME + ['A-numcomplex: contract header for num_complex::Complex<f64> (every operation total, results uninterpreted): '
+                             'what is proved for * / ^ pow sqrt root exp exp2 ln lb log abs and the trigonometric / hyperbolic functions is which num_complex operation is applied to which operands in which order'],
+                unclaimed=['the 1e-12 / 1e-9 closeness of num_complex operations to the textbook definitions', 'the `i` suffix / imaginary unit in the tokenizer',
+                           'agreement with eval_f64 on real operands']),
     'C09': dict(kani=['number-ast', 'number-l4'], level='proof', assumptions=KANI_ASSUME,
                 unclaimed=['value of Integer ^ Integer (Kani 0.68 mis-models this arm: its counterexamples do not replay natively)',
                            'value of the Float quotient / remainder beyond the bounded domain', 'integer vs float literal distinction (tokenizer)']),
@@ -136,11 +150,13 @@ LEVEL_TEXT['C09'] = ('Kani/CBMC proves one harness per Node constructor and oper
 LEVEL_TEXT['C17'] = ('For each feature subset (quick: the 5 singletons, one pair and the full set; thorough: all 31) a generated probe crate is compiled against the crate built with exactly that subset '
                      '(it names every selected export and would be ambiguous on any other), Kani re-proves the derived category order under that cfg, and Verus re-verifies the parsers for both shapes of the '
                      'cfg-dependent enum; a syntactic frame check shows nothing else is cfg-dependent.')
+LEVEL_TEXT['C08'] = ('Verus proves for all trees that eval_complex::ast::eval never fails and applies, at every node, the num_complex operation the property names to its children\'s values in the stated order '
+                     '(contract header for num_complex); Kani proves + - and unary minus bit-exact against the textbook component formulas over all operand bit patterns, and * / total.')
+LEVEL_TEXT['C07'] = ('Verus proves for all trees that eval_decimal::ast::eval applies the rust_decimal operation the property names at every + - * / % unary-minus node, and returns Err - never a panic - exactly when that '
+                     'operation is undefined (division or remainder by zero) or its result is outside the Decimal range, against a contract header for rust_decimal.')
 DESIGN_REF = {}
 TECHNIQUE = {'C18': 'contract-style full-domain Kani harness on the unmodified function (bit-precise, no unwinding bound)'}
 NOT_APPLICABLE = {
-    'C07': 'not yet covered: eval_decimal::ast against the rust_decimal contract header is not built yet',
-    'C08': 'not yet covered: eval_complex::ast against the num_complex contract header is not built yet',
     'C15': 'not yet covered: relational Kani obligations between evaluators are not built yet',
     'C16': 'contracts speak about one call: neither installed verifier can quantify over unbounded call histories or thread interleavings (Kani has no threads; Verus would need permission types around code that has no shared state to annotate)',
     'C19': 'not yet covered: tokenizer literal arms (L1) are not under contract yet',
